@@ -36,10 +36,12 @@ type RealNode struct {
 
 	// scenario knobs
 	Verdict       func(b *FakeBlock) bool
-	CancelDuring  bool // the next SPI call is overtaken by an election trigger of the current position
+	CancelDuring  int // 0: no; 1: during the next SPI call the main loop handles the election trigger of the current view; 2: a late trigger of the previous view; 3: of view 0
 	CommitCbFails bool
 	PrevProof     []byte
 	Panicked      string
+	MonViol       func(prop, sig, what string) // set by the scenario: report a monitor violation
+	reqCancelled  bool                        // the context of the last RequestNewBlockProposal was cancelled when it returned
 
 	// observations for monitors
 	Commits   []commitObs
@@ -63,25 +65,54 @@ type roundObs struct {
 
 type recBlockUtils struct{ n *RealNode }
 
-func (u *recBlockUtils) during(ctx context.Context) bool {
+// during emulates the main loop handling an election trigger while the worker is inside an SPI
+// call: CancelOlderThan(height, triggerView+1). Returns the token for the op line ("-" or the view).
+func (u *recBlockUtils) during(ctx context.Context) string {
 	n := u.n
-	did := false
-	if n.CancelDuring {
-		n.CancelDuring = false
-		did = true
-		hv := n.St.HeightView()
-		n.St.Contexts.CancelOlderThan(state.NewHeightView(hv.Height(), hv.View()+1))
+	if n.CancelDuring == 0 {
+		return "-"
 	}
-	return did
+	hv := n.St.HeightView()
+	v := uint64(hv.View()) + 1 // trigger of the current view
+	switch n.CancelDuring {
+	case 2:
+		v = uint64(hv.View()) // late trigger of the previous view
+	case 3:
+		v = 1 // late trigger of view 0
+	}
+	n.CancelDuring = 0
+	n.St.Contexts.CancelOlderThan(state.NewHeightView(hv.Height(), primitives.View(v)))
+	return fmt.Sprintf("%d", v)
+}
+
+// judge is the C15 monitor at the SPI boundary: a proposal is requested for the node's current
+// (height, view); the election trigger of that view (cancelAt = view+1) must cancel the context,
+// a late trigger of an older view (cancelAt <= view) must not.
+func (u *recBlockUtils) judge(ctx context.Context, call string, did string, viewAtCall uint64) {
+	n := u.n
+	if did == "-" || n.MonViol == nil {
+		return
+	}
+	var at uint64
+	fmt.Sscanf(did, "%d", &at)
+	if at <= viewAtCall && ctx.Err() != nil {
+		n.MonViol("C15", "current-context-cancelled-by-older-event", fmt.Sprintf("node %d: %s for view %d had its context cancelled by CancelOlderThan(view %d)", n.Idx, call, viewAtCall, at))
+	}
+	if at > viewAtCall && ctx.Err() == nil {
+		n.MonViol("C15", "context-not-cancelled-on-election", fmt.Sprintf("node %d: %s for view %d still has a live context after the election trigger of that view was handled (CancelOlderThan view %d)", n.Idx, call, viewAtCall, at))
+	}
 }
 
 func (u *recBlockUtils) RequestNewBlockProposal(ctx context.Context, blockHeight primitives.BlockHeight, memberId primitives.MemberId, prevBlock interfaces.Block) (interfaces.Block, primitives.BlockHash) {
 	n := u.n
 	n.outs = append(n.outs, fmt.Sprintf("req:%d", uint64(blockHeight)))
+	viewAtCall := uint64(n.St.View())
 	did := u.during(ctx)
+	u.judge(ctx, "RequestNewBlockProposal", did, viewAtCall)
+	n.reqCancelled = ctx.Err() != nil
 	n.nextBlock++
 	b := &FakeBlock{H: uint64(blockHeight), Id: uint64(n.Idx+1)*1000000 + n.nextBlock}
-	n.spi = append(n.spi, fmt.Sprintf("prop(%s;%s)", n.enc.block(b), b01(did)))
+	n.spi = append(n.spi, fmt.Sprintf("prop(%s;%s)", n.enc.block(b), did))
 	n.Proposed[b.Id] = true
 	return b, blockHash(b)
 }
@@ -98,7 +129,7 @@ func (u *recBlockUtils) ValidateBlockProposal(ctx context.Context, blockHeight p
 			ok = n.Verdict(fb)
 		}
 	}
-	n.spi = append(n.spi, fmt.Sprintf("verd(%s;%s)", b01(ok), b01(did)))
+	n.spi = append(n.spi, fmt.Sprintf("verd(%s;%s)", b01(ok), did))
 	if ok {
 		n.Approved[fb.Id] = true
 	}
